@@ -34,6 +34,7 @@ type World struct {
 	namedIDs       map[string]uint64
 	funcIDs        map[*ssa.Function]uint64
 	overlay        map[string][]byte
+	pkgDir         map[string]string
 	genSrc         map[string]string // package path -> generated contract source
 	loadSeconds    float64
 }
@@ -49,7 +50,7 @@ var pkgClauseRe = regexp.MustCompile(`(?m)^package\s+\w+`)
 func LoadWorld(repo, specDir string, dirs []string, extraEnv []string) (*World, error) {
 	w := &World{repo: repo, specDir: specDir, pkgs: map[string]*ssa.Package{}, targets: map[string]bool{},
 		contracts: map[string]*Contract{}, ifaceContracts: map[string]*Contract{}, namedIDs: map[string]uint64{},
-		funcIDs: map[*ssa.Function]uint64{}, overlay: map[string][]byte{}, genSrc: map[string]string{}}
+		funcIDs: map[*ssa.Function]uint64{}, overlay: map[string][]byte{}, genSrc: map[string]string{}, pkgDir: map[string]string{}}
 	common := readFileOr(filepath.Join(specDir, "common.go"))
 	if common == nil {
 		return nil, fmt.Errorf("spec library not found in %s", specDir)
@@ -163,6 +164,7 @@ func LoadWorld(repo, specDir string, dirs []string, extraEnv []string) (*World, 
 		}
 		w.pkgs[p.Pkg.Path()] = p
 		w.targets[p.Pkg.Path()] = true
+		w.pkgDir[p.Pkg.Path()] = filepath.Join(repo, dirs[i])
 		w.genSrc[p.Pkg.Path()] = string(w.overlay[filepath.Join(repo, dirs[i], "zz_gocv_contracts.go")])
 		for _, c := range pends[i].cons {
 			c.Key = strings.ReplaceAll(c.Key, "%PKG%", p.Pkg.Path())
